@@ -131,3 +131,35 @@ func zzC05_zcash_g2() {
 	assertEqBytes(got, zcashG2Generator, "Encode(g2) is the ZCash compressed encoding of the standard G2 generator (x.c1 || x.c0)")
 	verifReach("zcash g2")
 }
+
+// zzC05_agg_reframed: the bytes of n valid signatures cut into a list at other places than the 48-byte boundaries
+// (entry lengths that compensate each other, e.g. 47 + 49, 0 + 96, 1 + 48 + 47): AggregateBLSSignatures must refuse
+// the list with the invalid-signature error -- each entry has to be a 48-byte signature on its own.
+func zzC05_agg_reframed(n, cut1, cut2 int) {
+	cat := make([]byte, 0, n*g1BytesLen)
+	for i := 0; i < n; i++ {
+		var c scalar
+		nondetFrStar(&c)
+		b, _ := g1PointBytes(&c, false)
+		cat = append(cat, b...)
+	}
+	var sigs []Signature
+	if cut2 < 0 {
+		sigs = []Signature{cat[:cut1], cat[cut1:]}
+	} else {
+		sigs = []Signature{cat[:cut1], cat[cut1:cut2], cat[cut2:]}
+	}
+	allOK := true
+	for _, sg := range sigs {
+		if len(sg) != g1BytesLen {
+			allOK = false
+		}
+	}
+	agg, err := AggregateBLSSignatures(sigs)
+	if allOK {
+		verifAssert(bAnd(err == nil, len(agg) == g1BytesLen), "a list of 48-byte valid signatures aggregates")
+	} else {
+		verifAssert(bAnd(agg == nil, IsInvalidSignatureError(err)), "a list with an entry that is not 48 bytes long is refused, also when the lengths compensate")
+	}
+	verifReach("aggregate reframed")
+}
